@@ -4,6 +4,8 @@
 (* attempt to open it with pdf.NewReader:                                  *)
 (*   [version, emd, user, owner, sup, perms,    what was asked for (model   *)
 (*                                              passwords: token sequences) *)
+(*    written,   the Writer produced a document (FALSE: NewWriter or a      *)
+(*               later call returned an error; outcome = "refused")         *)
 (*    enc, R,                                   /Encrypt present, its /R    *)
 (*    outcome,   "opened" | "autherr" (errors.As *AuthenticationError)      *)
 (*               | "error" (any other failure)                              *)
@@ -23,7 +25,14 @@ CaseOK(c) ==
       R == IF c.enc THEN c.R ELSE 0
       res == IF c.outcome = "opened" THEN OpenedWith(ToSet(c.permsOut))
              ELSE [kind |-> c.outcome, perms |-> {}]
-  IN /\ c.outcome \in {"opened", "autherr", "error"}
+      rq == [user |-> u, owner |-> o, perms |-> ToSet(c.perms), version |-> c.version, emd |-> c.emd]
+  IN IF ~c.written
+       \* the Writer may refuse only what the reference lets it refuse:
+       \* encryption at PDF 1.0, plaintext metadata before 1.6, passwords
+       \* the standard's preparation rejects
+       THEN RefMayRefuse(rq)
+       ELSE
+     /\ c.outcome \in {"opened", "autherr", "error"}
      \* a document is encrypted exactly when a password was given
      /\ c.enc = (u # Empty \/ o # Empty)
      /\ c.enc => c.R \in RefRevisions(c.version)
